@@ -16,7 +16,23 @@ def quiet_logging():
     logging.disable(logging.CRITICAL)
 
 
+def _with_limit_alert_condition(xml: bytes) -> bytes:
+    """tests/mdib_two_mds.xml plus a LimitAlertCondition (with its state) in the alert system of vmd0."""
+    descr = (b'<AlertCondition xsi:type="LimitAlertConditionDescriptor" Kind="Phy" Priority="Hi" Handle="lac0.vmd0.mds0" '
+             b'DescriptorVersion="0" SafetyClassification="MedA"><Type Code="196672"/><Source>mds0</Source>'
+             b'<MaxLimits Lower="1" Upper="9"/></AlertCondition>')
+    state = (b'<State xsi:type="LimitAlertConditionState" MonitoredAlertLimits="All" ActivationState="On" StateVersion="0" '
+             b'DescriptorHandle="lac0.vmd0.mds0" DescriptorVersion="0"><Limits Lower="2" Upper="8"/></State>')
+    anchor_d = b'<AlertSignal ConditionSignaled="ac0.vmd0.mds0" Manifestation="Aud" Latching="false" Handle="as0.vmd0.mds0" '
+    anchor_s = b'<State xsi:type="AlertConditionState" DeterminationTime="1579170261104" ActivationState="On" StateVersion="0" DescriptorHandle="ac0.vmd0.mds0"'
+    if xml.count(anchor_d) != 1 or xml.count(anchor_s) != 1:
+        raise RuntimeError('tests/mdib_two_mds.xml changed: cannot derive the fixture with a LimitAlertCondition')
+    return xml.replace(anchor_d, descr + anchor_d).replace(anchor_s, state + anchor_s)
+
+
 def fixture(name: str) -> bytes:
+    if name == 'mdib_two_mds_limit.xml':
+        return _with_limit_alert_condition(fixture('mdib_two_mds.xml'))
     for base in (FIXTURES, os.path.join(REPO, 'tests')):
         p = os.path.join(base, name)
         if os.path.exists(p):
